@@ -58,3 +58,4 @@ def check(ctx, fns, pairs, rule="R17.capacity", key_prefix="ptr-capacity"):
                        ("%s with a stale capacity: %s" % ("capacity read" if p1 else "function exit",
                                                           describe_path(fn, fn.cfg, path))) if path else "")
     return n
+
